@@ -15,23 +15,33 @@ import Manticore.Lemmas.SmbLocality
 namespace Manticore.C04
 open Manticore Manticore.SmbIR Manticore.Gen.SmbCommands
 
-/-- the commands whose two programs are NOT established to mirror each other: exactly these 32.
-    For the other 83 structures `Mirror` holds: same slots, same order, same widths, same byte order and
+/-- the commands whose two programs are NOT established to mirror each other: exactly these 25.
+    For the other 90 structures `Mirror` holds: same slots, same order, same widths, same byte order and
     same length dependencies in Marshal and Unmarshal, no field changed after it was emitted, offsets
     reset between the blocks, lengths read before the buffers they describe, guards no larger than the
-    reads they protect, every declared field on the wire.  Swapping two reads, changing a width or an
-    endianness on one side only, dropping a field or a `offset = 0` in any of the 83 makes this fail
-    to check. -/
+    reads they protect, every declared field on the wire, and — for the AndX commands — the AndX block
+    read from the head of the parameter stream and exactly its four bytes cut off before the first field
+    is read.  Swapping two reads, changing a width or an endianness on one side only, dropping a field,
+    an `offset = 0` or the AndX stanza (or cutting off another number of bytes) in any of the 90 makes
+    this fail to check.  Ten of the sixteen AndX commands are inside (the three without fields,
+    NtCreateAndxRequest/Response, ReadAndxRequest/Response, TreeConnectAndxRequest/Response,
+    WriteAndxResponse); the other six have loops, padding arithmetic, a conditional field or a dropped
+    field. -/
 theorem non_mirror_commands :
     (commands.filter (fun c => !Mirror c)).map (·.name) =
       ["CreateTemporaryResponse", "FindCloseResponse", "FindResponse", "FindUniqueResponse", "LockAndReadResponse",
-       "LockingAndxRequest", "NegotiateRequest", "NegotiateResponse", "NtCreateAndxRequest", "NtCreateAndxResponse",
-       "OpenAndxRequest", "OpenAndxResponse", "QueryInformation2Response", "QueryInformationResponse",
-       "ReadAndxRequest", "ReadAndxResponse",
-       "ReadRawRequest", "ReadResponse", "RenameRequest", "SessionSetupAndxRequest", "SessionSetupAndxResponse",
-       "TransactionRequest", "TreeConnectAndxRequest", "TreeConnectAndxResponse", "TreeConnectRequest",
-       "WriteAndCloseRequest", "WriteAndUnlockRequest", "WriteAndxRequest", "WriteAndxResponse", "WriteMpxRequest",
-       "WriteRawRequest", "WriteRequest"] := by decide +kernel
+       "LockingAndxRequest", "NegotiateRequest", "NegotiateResponse", "OpenAndxRequest", "OpenAndxResponse",
+       "QueryInformation2Response", "QueryInformationResponse", "ReadRawRequest", "ReadResponse", "RenameRequest",
+       "SessionSetupAndxRequest", "SessionSetupAndxResponse", "TransactionRequest", "TreeConnectRequest",
+       "WriteAndCloseRequest", "WriteAndUnlockRequest", "WriteAndxRequest", "WriteMpxRequest", "WriteRawRequest",
+       "WriteRequest"] := by decide +kernel
+
+/-- **every AndX command consumes its AndX block**: each of the 16 structures whose `IsAndX` returns
+    true has the stanza (early returns on an empty parameter stream only, `AndX.Unmarshal` of the
+    stream with its error checked, `P = P[4:]`) in front of its first read; no other structure has it. -/
+theorem andx_consumed :
+    commands.all (fun c => c.isAndX == (splitAndX c.unmarshal).isSome) = true ∧
+      (commands.filter (·.isAndX)).length = 16 := by decide +kernel
 
 /-- the recorded round-trip findings, decided on the extracted programs: exactly these commands and
     reasons (KNOWN_FINDINGS.txt lists the same keys).  A new structural defect in another command
@@ -39,17 +49,14 @@ theorem non_mirror_commands :
 theorem known_roundtrip_findings :
     commands.filterMap (fun c => (knownRtKind c).map (fun k => (k, c.name))) =
       [(.fieldNotUnmarshalled, "CreateTemporaryResponse"), (.fixedEntrySize, "FindResponse"), (.fixedEntrySize, "FindUniqueResponse"),
-       (.fieldNotMarshalled, "LockAndReadResponse"), (.andxNotConsumed, "LockingAndxRequest"),
+       (.fieldNotMarshalled, "LockAndReadResponse"),
        (.fieldNotMarshalled, "NegotiateRequest"), (.fieldNotMarshalled, "NegotiateResponse"),
-       (.andxNotConsumed, "NtCreateAndxRequest"), (.andxNotConsumed, "NtCreateAndxResponse"),
-       (.andxNotConsumed, "OpenAndxRequest"), (.andxNotConsumed, "OpenAndxResponse"),
+       (.fieldNotMarshalled, "OpenAndxResponse"),
        (.fieldNotUnmarshalled, "QueryInformation2Response"), (.fieldNotMarshalled, "QueryInformationResponse"),
-       (.andxNotConsumed, "ReadAndxRequest"), (.andxNotConsumed, "ReadAndxResponse"), (.conditionalField, "ReadRawRequest"),
-       (.fieldNotMarshalled, "ReadResponse"), (.andxNotConsumed, "SessionSetupAndxRequest"),
-       (.andxNotConsumed, "SessionSetupAndxResponse"), (.andxNotConsumed, "TreeConnectAndxRequest"),
-       (.andxNotConsumed, "TreeConnectAndxResponse"), (.readsWholeBuffer, "TreeConnectRequest"),
-       (.conditionalField, "WriteAndCloseRequest"), (.andxNotConsumed, "WriteAndxRequest"),
-       (.andxNotConsumed, "WriteAndxResponse"), (.conditionalField, "WriteRawRequest")] := by decide +kernel
+       (.conditionalField, "ReadRawRequest"),
+       (.fieldNotMarshalled, "ReadResponse"), (.readsWholeBuffer, "TreeConnectRequest"),
+       (.conditionalField, "WriteAndCloseRequest"), (.conditionalField, "WriteAndxRequest"),
+       (.conditionalField, "WriteRawRequest")] := by decide +kernel
 
 /-- **every buffer is sized by the field documented to size it**: the (command, buffer, length) and
     (command, list, count) relations the regenerated unmarshal programs rely on are exactly the pinned
@@ -72,7 +79,7 @@ theorem marshal_is_layout {C : Codecs} {T : String → Prop} (hC : LawfulCodecs 
     (env : Env) (s : MState) (hrun : runM C c env = .ok s) (hfit : intsFit s.env c.marshal = true) :
     s.P = layoutBytes C s.env (m.filter (·.blk == .P)) ∧ s.D = layoutBytes C s.env (m.filter (·.blk == .D)) ∧
       s.head = [] := by
-  obtain ⟨hP, hD, hH, _⟩ := runMStmts_layout hC c.isAndX c.marshal m { env := env } s hl hst
+  obtain ⟨hP, hD, hH, _⟩ := runMStmts_layout hC c.isAndX c.marshal m { env := prologueEnv c.isAndX env } s hl hst
     (fun b f t h => hT t (mem_subTypes h)) hrun hfit
   exact ⟨by simpa using hP, by simpa using hD, hH⟩
 
@@ -86,7 +93,7 @@ theorem unmarshal_reads_layout {C : Codecs} {T : String → Prop} (hC : LawfulCo
     (hl : layoutU c.unmarshal = some u)
     (hok : okU (!(u.filter (·.blk == .P)).isEmpty) (!(u.filter (·.blk == .D)).isEmpty) {} [] c.unmarshal = true)
     (hlast : ∀ b, restOnlyLast (u.filter (·.blk == b)) = true)
-    (env' env0 : Env) (hrel : relationsHold C env' 0 c.unmarshal = true) (hfit : ∀ sl ∈ u, SlotFit C T env' sl)
+    (env' env0 : Env) (plen : Nat) (hrel : relationsHold C env' plen 0 c.unmarshal = true) (hfit : ∀ sl ∈ u, SlotFit C T env' sl)
     (wc : Nat) (Pext Dext : Bytes) :
     ∃ d, runU C c env0 wc (layoutBytes C env' (u.filter (·.blk == .P))) (layoutBytes C env' (u.filter (·.blk == .D)))
           Pext Dext = .ok d ∧
@@ -94,7 +101,7 @@ theorem unmarshal_reads_layout {C : Codecs} {T : String → Prop} (hC : LawfulCo
         ∀ f ∈ u.map Slot.field, d.get f = env'.get f) := by
   have hinv : Inv C env' {} (layoutBytes C env' (u.filter (·.blk == .P))) (layoutBytes C env' (u.filter (·.blk == .D))) 0 u :=
     ⟨fun b _ => (by cases b <;> exact Or.inr rfl), fun b hb => (by cases hb), fun _ => rfl⟩
-  obtain ⟨d, hd, hag⟩ := runU_go_layout hC env' _ _ c.unmarshal u {} []
+  obtain ⟨d, hd, _, hag⟩ := runU_go_layout hC env' plen _ _ c.unmarshal u {} []
     { P := layoutBytes C env' (u.filter (·.blk == .P)), D := layoutBytes C env' (u.filter (·.blk == .D)),
       Pext := Pext, Dext := Dext, wordCount := wc, env := env0 } 0 hl hok hrel hfit hlast hinv (fun f hf => by cases hf)
   refine ⟨d, hd, fun hne f hf => hag ?_ f (Or.inr hf)⟩
@@ -110,20 +117,23 @@ theorem unmarshal_reads_layout {C : Codecs} {T : String → Prop} (hC : LawfulCo
     kernel-decidable predicate `Mirror`, every codec table satisfying `LawfulCodecs` on the nested
     types the command uses, every internally consistent field assignment `env`, and every initial
     state `env0` of the receiving structure: `Marshal` succeeds, `Unmarshal` of the bytes succeeds, and
-    every declared field comes back with the value `Marshal` left in it (`SetBufferFormat`, nested
-    `Marshal` normalise the sender's fields; `env'` is the sender after the call).
+    every declared field — and, for an AndX command, the AndX block (`Cmd.roundTripFields`) — comes back
+    with the value `Marshal` left in it (`SetBufferFormat`, nested `Marshal` normalise the sender's fields,
+    the prologue gives a command without an AndX block the default one; `env'` is the sender after the call).
     Hypotheses on the presence/kind of fields are not needed: `consistent` already implies that
     `Marshal` ran, and `Unmarshal` assigns every declared field. -/
 theorem mirror_roundtrip {C : Codecs} {T : String → Prop} (hC : LawfulCodecs C T) (c : Cmd)
     (hm : Mirror c = true) (hT : ∀ t ∈ c.subTypes, T t) (env0 env : Env) (hc : consistent C c env = true) :
     ∃ bs env' d, encodeCmd C c env = .ok bs ∧ envAfterMarshal C c env = .ok env' ∧
-      decodeCmd C c env0 bs = .ok d ∧ ∀ f ∈ c.fields.map (·.1), d.get f = env'.get f :=
+      decodeCmd C c env0 bs = .ok d ∧ ∀ f ∈ c.roundTripFields, d.get f = env'.get f :=
   mirror_roundtrip_core hC c hm hT env0 env hc
 
 /-- **The standard codecs** (the C06 models behind `Manticore.SmbCodecs.std`) **satisfy the codec laws**
-    on `SmbCodecs.lawfulTypes`: every nested type except `SMB_NMPIPE_STATUS` (its decoder rejects
-    trailing bytes: finding `nmpipe_trailing`), `Dialects` (decodes to the end of its input) and
-    `SMB_DIRECTORY_INFORMATION` (not attempted).  None of the three occurs in a `Mirror` command. -/
+    on `SmbCodecs.lawfulTypes`: every nested type except `Dialects` (decodes to the end of its input) and
+    `SMB_DIRECTORY_INFORMATION` (not attempted); neither occurs in a `Mirror` command.
+    `SMB_NMPIPE_STATUS`, whose decoder rejects trailing bytes (C06 finding `nmpipe_trailing`), satisfies the
+    decode law for its own two bytes only (`exactLen`), which is what `Mirror` asks of a command reading it:
+    a window of exactly that size (NtCreateAndxResponse since fixes/C04-andx-nmpipe-window.diff). -/
 theorem std_lawful : LawfulCodecs Manticore.SmbCodecs.std (· ∈ Manticore.SmbCodecs.lawfulTypes) :=
   Manticore.SmbStd.std_lawful_core
 
@@ -133,14 +143,14 @@ theorem mirror_types_lawful :
     commands.all (fun c => !Mirror c || c.subTypes.all (Manticore.SmbCodecs.lawfulTypes.contains ·)) = true := by
   decide +kernel
 
-/-- **C04 for the regenerated commands.**  Each of the 83 `Mirror` command structures of this tree
-    round-trips every declared field, for all internally consistent field values and all initial
+/-- **C04 for the regenerated commands.**  Each of the 90 `Mirror` command structures of this tree
+    round-trips every declared field and its AndX block, for all internally consistent field values and all initial
     states of the receiver, with the C06 models as nested codecs. -/
 theorem smb_roundtrip (c : Cmd) (hmem : c ∈ commands) (hm : Mirror c = true) (env0 env : Env)
     (hc : consistent Manticore.SmbCodecs.std c env = true) :
     ∃ bs env' d, encodeCmd Manticore.SmbCodecs.std c env = .ok bs ∧
       envAfterMarshal Manticore.SmbCodecs.std c env = .ok env' ∧
-      decodeCmd Manticore.SmbCodecs.std c env0 bs = .ok d ∧ ∀ f ∈ c.fields.map (·.1), d.get f = env'.get f := by
+      decodeCmd Manticore.SmbCodecs.std c env0 bs = .ok d ∧ ∀ f ∈ c.roundTripFields, d.get f = env'.get f := by
   refine mirror_roundtrip std_lawful c hm ?_ env0 env hc
   intro t ht
   have h := List.all_eq_true.mp mirror_types_lawful c hmem
@@ -152,7 +162,7 @@ theorem smb_roundtrip (c : Cmd) (hmem : c ∈ commands) (hm : Mirror c = true) (
 
 /-- **C04, re-encoding (generic).**  Under the hypotheses of `mirror_roundtrip`, for a marshal program
     of the `Reencodable` shape (each `SetBufferFormat` immediately before the `Marshal` of the same
-    field, no `c.F = len(c.G)`, only declared fields emitted) and codecs whose `Marshal` keeps the
+    field, nothing assigning `F` or `G` after a `c.F = len(c.G)`, only declared fields emitted or measured) and codecs whose `Marshal` keeps the
     buffer format just set (`LawfulFmt`): marshalling the decoded structure again yields the same bytes. -/
 theorem mirror_reencode {C : Codecs} {T F : String → Prop} (hC : LawfulCodecs C T) (hF : LawfulFmt C F) (c : Cmd)
     (hm : Mirror c = true) (hre : Reencodable c = true) (hT : ∀ t ∈ c.subTypes, T t) (hFt : ∀ t ∈ c.fmtTypes, F t)
@@ -171,7 +181,7 @@ theorem mirror_reencodable :
     commands.all (fun c => !Mirror c || (Reencodable c && c.fmtTypes.all (· == "SMB_STRING"))) = true := by
   decide +kernel
 
-/-- **C04, re-encoding, for the regenerated commands**: for each of the 83 `Mirror` structures,
+/-- **C04, re-encoding, for the regenerated commands**: for each of the 90 `Mirror` structures,
     unmarshalling the bytes of a consistent structure and marshalling the result gives the same bytes. -/
 theorem smb_reencode (c : Cmd) (hmem : c ∈ commands) (hm : Mirror c = true) (env0 env : Env)
     (hc : consistent Manticore.SmbCodecs.std c env = true) :
@@ -188,7 +198,7 @@ theorem smb_reencode (c : Cmd) (hmem : c ∈ commands) (hm : Mirror c = true) (e
 
 /-- **C04, slot locality.**  When `slotRange c f = some (lo, hi)` (straight-line marshal program,
     exactly one statement touches `f`, namely the emission of a fixed-width parameter slot preceded by
-    fixed-width slots only), replacing the value of `f` by anything else for which `Marshal` still
+    fixed-width slots only; for an AndX command the range starts behind the four AndX bytes), replacing the value of `f` by anything else for which `Marshal` still
     succeeds changes no byte of the encoded command outside `[lo, hi)` and not its length.  Any codec
     table; no consistency hypothesis. -/
 theorem slot_locality (C : Codecs) (c : Cmd) (f : String) (lo hi : Nat) (h : slotRange c f = some (lo, hi))
@@ -214,12 +224,43 @@ example : consistent Manticore.SmbCodecs.std cmd_CloseRequest closeEnv = true :=
   have htup : tupOk Manticore.SmbCodecs.std "FILETIME" ([1, 2], []) = true := by decide +kernel
   unfold consistent
   rw [hrun]
-  simp [intsFit, relationsHold, cmd_CloseRequest, closeEnv, Env.get, htup, wordCountOf, andxWords]
+  simp [intsFit, relationsHold, cmd_CloseRequest, closeEnv, Env.get, htup, wordCountOf, andxWords, andxOk]
 example : encodeCmd Manticore.SmbCodecs.std cmd_CloseRequest closeEnv =
     .ok [5, 0x34, 0x12, 1, 0, 0, 0, 2, 0, 0, 0, 0, 0] := by decide +kernel
 example : Reencodable cmd_CloseRequest = true := by decide
 example : slotRange cmd_CloseRequest "FID" = some (1, 3) := by decide
 example : encodeCmd Manticore.SmbCodecs.std cmd_CloseRequest (closeEnv.set "FID" (.n 0xFFFF)) =
     .ok [5, 0xFF, 0xFF, 1, 0, 0, 0, 2, 0, 0, 0, 0, 0] := by decide +kernel
+
+/-- an AndX command with an AndX block set: `ReadAndxRequest{FID: 0x1234, Offset: 1, …}` chained to a
+    CLOSE (0x04) at offset 0x0102 — `Mirror` holds, the values are consistent, the AndX words go out at
+    the head of the parameter block and come back with the six declared fields -/
+def readAndxEnv : Env :=
+  [("FID", .n 0x1234), ("Offset", .n 1), ("MaxCountOfBytesToReturn", .n 2), ("MinCountOfBytesToReturn", .n 3),
+   ("Timeout", .n 4), ("Remaining", .n 5), (andxField, .ns [4, 0, 0x0102])]
+
+def readAndxWire : Bytes :=
+  [0x0a, 0x04, 0x00, 0x01, 0x02, 0x34, 0x12, 1, 0, 0, 0, 2, 0, 3, 0, 4, 0, 0, 0, 5, 0, 0, 0]
+
+example : Mirror cmd_ReadAndxRequest = true := by decide
+example : cmd_ReadAndxRequest.roundTripFields =
+    ["FID", "Offset", "MaxCountOfBytesToReturn", "MinCountOfBytesToReturn", "Timeout", "Remaining", "AndX"] := by decide
+example : consistent Manticore.SmbCodecs.std cmd_ReadAndxRequest readAndxEnv = true := by
+  have hrun : runM Manticore.SmbCodecs.std cmd_ReadAndxRequest readAndxEnv =
+      .ok { P := [0x34, 0x12, 1, 0, 0, 0, 2, 0, 3, 0, 4, 0, 0, 0, 5, 0], D := [], head := [], env := readAndxEnv } := by rfl
+  have hax : andxOk true readAndxEnv = true := by decide
+  unfold consistent
+  rw [hrun]
+  simp [intsFit, relationsHold, cmd_ReadAndxRequest, readAndxEnv, Env.get, wordCountOf, andxWords]
+  exact hax
+example : encodeCmd Manticore.SmbCodecs.std cmd_ReadAndxRequest readAndxEnv = .ok readAndxWire := by decide +kernel
+example : (match decodeCmd Manticore.SmbCodecs.std cmd_ReadAndxRequest [] readAndxWire with
+    | .ok d => cmd_ReadAndxRequest.roundTripFields.map d.get == cmd_ReadAndxRequest.roundTripFields.map readAndxEnv.get
+    | _ => false) = true := by decide +kernel
+/-- fewer than four parameter bytes: the AndX block cannot be read, `Unmarshal` returns an error -/
+example : decodeCmd Manticore.SmbCodecs.std cmd_ReadAndxRequest [] [0x01, 0x04, 0x00, 0, 0] = .err := by decide +kernel
+/-- without an AndX block set the prologue's default goes out: `ff 00 00 00` -/
+example : encodeCmd Manticore.SmbCodecs.std cmd_LogoffAndxRequest [] = .ok [0x02, 0xFF, 0, 0, 0, 0, 0] := by
+  decide +kernel
 
 end Manticore.C04
